@@ -83,7 +83,7 @@ func c10Run(p c10Params) func() {
 			if p.base == "reconnect-2sends" {
 				gw.OnTunnelReq = func(req *knxnet.TunnelReq, s *fakesock.Sent) {} // never acknowledged
 			}
-			// heartbeats are never answered; the reconnect is accepted, refused or ignored
+			// heartbeats are never answered; the reconnect is accepted, refused, ignored or answered "busy" every time
 			gw.OnConnState = func(req *knxnet.ConnStateReq, s *fakesock.Sent) {}
 			first := true
 			mode := -1
@@ -94,7 +94,7 @@ func c10Run(p c10Params) func() {
 					return
 				}
 				if mode < 0 {
-					mode = mc.Choose(3, mc.Free)
+					mode = mc.Choose(4, mc.Free)
 				}
 				switch mode {
 				case 0:
@@ -102,6 +102,8 @@ func c10Run(p c10Params) func() {
 				case 1:
 					sock.Deliver(&knxnet.ConnRes{Channel: 0, Status: knxnet.ErrConnectionType})
 				case 2: // silence
+				case 3: // every connect request is answered "no more connections" (all slots taken)
+					sock.Deliver(&knxnet.ConnRes{Channel: 0, Status: knxnet.ErrNoMoreConnections})
 				}
 			}
 		}
